@@ -259,6 +259,17 @@ func genC12(dir, tier string, seed int64) {
 				if rep%3 == 0 {
 					emit(mk(nil, nil, dims), "empty-payload")
 				}
+				// raw payloads that are off by every number of bytes below the element width, both ways
+				if enc == "raw" && len(raw) > 0 {
+					w := len(raw) / n
+					for d := 1; d < w; d++ {
+						if r.Intn(2) == 0 {
+							emit(mk(vals, append(append([]byte{}, raw...), make([]byte, d)...), dims), fmt.Sprintf("raw-long-%d-bytes", d))
+						} else if len(raw) > d {
+							emit(mk(vals, raw[:len(raw)-d], dims), fmt.Sprintf("raw-short-%d-bytes", d))
+						}
+					}
+				}
 				// malformed dims
 				if len(dims) > 0 && rep%2 == 0 {
 					bad := append([]int64{}, dims...)
